@@ -161,7 +161,7 @@ def check(case):
     hard = Hard(cfg, pr['pvec'])
     kin = cfg.options['kinematics']
     fstep, raw = compiled(case['model'])
-    state = mats.initial_state(cfg).copy()
+    state = mats.library_initial_state(cfg, pr['pvec']).copy()
     ey = Y0 / (2 * mu * math.sqrt(1.5))          # |dev strain| at first yield
     H = onp.zeros((3, 3))
     lastdir = None
